@@ -22,7 +22,7 @@ from dsim.world import HarnessError, SimCrash, WritePlan
 
 MAX_ROW = 1_000_000
 MAX_COL = 1000
-CELL_CAP = 700_000
+CELL_CAP = 1_000_000
 BIG_DOC_CELLS = 6000
 MAX_DOCS = 3
 FILE_SLOTS = ["f0", "f1", "f2"]
